@@ -27,16 +27,16 @@ run_demo() { # $1 = id, $2 = binary ; prints exit code of the demo
     C14-3) mkdir -p harper-ls/tests; cp $d/*.rs harper-ls/tests/; t=$(basename $(ls $d/*.rs | head -1) .rs); cargo test -q -p harper-ls --offline -j 6 --test $t >/dev/null 2>&1; echo $?; rm -rf harper-ls/tests ;;
     C08-1|C08-2|C08-3) git apply $d/demo.patch 2>/dev/null; cargo test -q -p harper-ls --offline -j 6 >/dev/null 2>&1; echo $?; git apply -R $d/demo.patch 2>/dev/null ;;
     C05b-1) cp $d/c05b_moved_clause.rs harper-core/tests/; cargo test -q -p harper-core --offline -j 6 --test c05b_moved_clause >/dev/null 2>&1; echo $?; rm -f harper-core/tests/c05b_moved_clause.rs ;;
-    C05b-2|C05b-3|C14c-2|C14d-1) cp $d/*.rs harper-core/tests/; t=$(basename $(ls $d/*.rs | head -1) .rs); cargo test -q -p harper-core --offline -j 6 --test $t >/dev/null 2>&1; echo $?; rm -f harper-core/tests/$t.rs ;;
+    C05b-2|C05b-3|C14c-2|C14d-1|C05c-1|C05c-2) cp $d/*.rs harper-core/tests/; t=$(basename $(ls $d/*.rs | head -1) .rs); cargo test -q -p harper-core --offline -j 6 --test $t >/dev/null 2>&1; echo $?; rm -f harper-core/tests/$t.rs ;;
     C14c-1) cp $d/c14_core_roundtrip.rs harper-core/tests/; cargo test -q -p harper-core --offline -j 6 --test c14_core_roundtrip >/dev/null 2>&1; echo $?; rm -f harper-core/tests/c14_core_roundtrip.rs ;;
     C07c-3) mkdir -p harper-wasm/tests; cp $d/*.rs harper-wasm/tests/; t=$(basename $(ls $d/*.rs | head -1) .rs); cargo test -q -p harper-wasm --offline -j 6 --test $t >/dev/null 2>&1; echo $?; rm -rf harper-wasm/tests ;;
     C07c-1) (python3 $d/demo_write_error.py $bin >/dev/null 2>&1; echo $?) ;;
     C07c-2) (python3 $d/demo_chunk_boundary.py $bin >/dev/null 2>&1; echo $?) ;;
     C14c-3) (python3 $d/ls_ignore_by_kind.py $bin >/dev/null 2>&1; echo $?) ;;
     C09c-1|C09c-2|C09c-3|C10c-1|C10c-2|C10c-3|C10d-1|C10d-2|C10d-3|C07d-1|C07d-2|C07d-3|C08c-1|C08c-2|C08c-3|C09d-1|C09d-2|C09d-3|C14d-2) (HARPER_LS=$bin python3 $d/demo.py >/dev/null 2>&1; echo $?) ;;
-    C19c-1|C19c-2) mkdir -p harper-stats/tests; cp $d/*.rs harper-stats/tests/; t=$(basename $(ls $d/*.rs | head -1) .rs); cargo test -q -p harper-stats --offline -j 6 --test $t >/dev/null 2>&1; echo $?; rm -rf harper-stats/tests ;;
+    C19c-1|C19c-2|C19d-1|C19d-2) mkdir -p harper-stats/tests; cp $d/*.rs harper-stats/tests/; t=$(basename $(ls $d/*.rs | head -1) .rs); cargo test -q -p harper-stats --offline -j 6 --test $t >/dev/null 2>&1; echo $?; rm -rf harper-stats/tests ;;
     C19c-3) (python3 $d/c19c_ls_close_then_shutdown.py $bin >/dev/null 2>&1; echo $?) ;;
-    C16c-1|C16c-2|C16c-3|C14d-3) mkdir -p harper-wasm/tests; cp $d/*.rs harper-wasm/tests/; t=$(basename $(ls $d/*.rs | head -1) .rs); cargo test -q -p harper-wasm --offline -j 6 --test $t >/dev/null 2>&1; echo $?; rm -rf harper-wasm/tests ;;
+    C16c-1|C16c-2|C16c-3|C14d-3|C16d-1|C16d-2) mkdir -p harper-wasm/tests; cp $d/*.rs harper-wasm/tests/; t=$(basename $(ls $d/*.rs | head -1) .rs); cargo test -q -p harper-wasm --offline -j 6 --test $t >/dev/null 2>&1; echo $?; rm -rf harper-wasm/tests ;;
     *) if [ -f $d/demo.py ]; then (python3 $d/demo.py $bin >/dev/null 2>&1; echo $?); else echo "no-demo-runner"; fi ;;
   esac
 }
